@@ -116,14 +116,14 @@ func (x *c04) r7() {
 		// level: 0, +1, < pageLevels
 		lvOK := false
 		for _, e := range levelPhi.Edges {
-			if b, ok := e.(*ssa.BinOp); ok && b.Op == token.ADD && b.X == ssa.Value(levelPhi) {
+			if b, ok := stripConv(e).(*ssa.BinOp); ok && b.Op == token.ADD && stripConv(b.X) == ssa.Value(levelPhi) {
 				if k, ok := constInt64(b.Y); ok && k == 1 {
 					lvOK = true
 				}
 			}
 		}
 		if !lvOK || !hasFact(g.FactsAt(g.Idx[call]), func(f Fact) bool {
-			return cmpMatch(f, token.LSS, func(v ssa.Value) bool { return v == ssa.Value(levelPhi) }, func(v ssa.Value) bool { k, ok := constUint64(v); return ok && k == x.levels })
+			return cmpMatch(f, token.LSS, func(v ssa.Value) bool { return stripConv(v) == ssa.Value(levelPhi) }, func(v ssa.Value) bool { k, ok := constUint64(v); return ok && k == x.levels })
 		}) {
 			msg = "the walk does not visit levels 0..pageLevels-1 in order"
 		}
@@ -137,28 +137,28 @@ func (x *c04) r7() {
 		} else {
 			entryAddr = ptrFromUintptr(call.Common().Args[1])
 		}
-		add, ok := entryAddr.(*ssa.BinOp)
-		if msg == "" && (!ok || add.Op != token.ADD || add.X != ssa.Value(tablePhi)) {
+		add, ok := stripConv(entryAddr).(*ssa.BinOp)
+		if msg == "" && (!ok || add.Op != token.ADD || stripConv(add.X) != ssa.Value(tablePhi)) {
 			msg = "the entry address is not tableAddr + index*8"
 		}
 		if msg == "" {
-			sh, ok := add.Y.(*ssa.BinOp)
+			sh, ok := stripConv(add.Y).(*ssa.BinOp)
 			if !ok || sh.Op != token.SHL {
 				msg = "the entry index is not scaled by the pointer size"
 			} else if k, ok := constUint64(sh.Y); !ok || k != ptrShift {
 				msg = "the entry index is not scaled by 1 << PointerShift"
-			} else if and, ok := sh.X.(*ssa.BinOp); !ok || and.Op != token.AND {
+			} else if and, ok := stripConv(sh.X).(*ssa.BinOp); !ok || and.Op != token.AND {
 				msg = "the entry index is not masked to the level's width"
 			} else {
-				shr, ok1 := and.X.(*ssa.BinOp)
-				sub, ok2 := and.Y.(*ssa.BinOp)
-				if !ok1 || shr.Op != token.SHR || shr.X != ssa.Value(virt) || !loadsTable(shr.Y, shiftsG, levelPhi) {
+				shr, ok1 := stripConv(and.X).(*ssa.BinOp)
+				sub, ok2 := stripConv(and.Y).(*ssa.BinOp)
+				if !ok1 || shr.Op != token.SHR || stripConv(shr.X) != ssa.Value(virt) || !loadsTable(shr.Y, shiftsG, levelPhi) {
 					msg = "the entry index is not virtAddr >> pageLevelShifts[level]"
 				} else if !ok2 || sub.Op != token.SUB {
 					msg = "the index mask is not (1 << pageLevelBits[level]) - 1"
 				} else if one, ok := constInt64(sub.Y); !ok || one != 1 {
 					msg = "the index mask is not (1 << pageLevelBits[level]) - 1"
-				} else if shl, ok := sub.X.(*ssa.BinOp); !ok || shl.Op != token.SHL || !loadsTable(shl.Y, bitsG, levelPhi) {
+				} else if shl, ok := stripConv(sub.X).(*ssa.BinOp); !ok || shl.Op != token.SHL || !loadsTable(shl.Y, bitsG, levelPhi) {
 					msg = "the index mask is not (1 << pageLevelBits[level]) - 1"
 				} else if k, ok := constInt64(shl.X); !ok || k != 1 {
 					msg = "the index mask is not (1 << pageLevelBits[level]) - 1"
@@ -171,7 +171,7 @@ func (x *c04) r7() {
 			for _, e := range tablePhi.Edges {
 				if isLoadOfGlobal(e, pdtVA) {
 					init = true
-				} else if b, ok := e.(*ssa.BinOp); ok && b.Op == token.SHL && b.X == entryAddr && loadsTable(b.Y, bitsG, levelPhi) {
+				} else if b, ok := stripConv(e).(*ssa.BinOp); ok && b.Op == token.SHL && stripConv(b.X) == stripConv(entryAddr) && loadsTable(b.Y, bitsG, levelPhi) {
 					next = true
 				} else {
 					msg = "unexpected table address update " + describe(e)
@@ -195,7 +195,7 @@ func (x *c04) r7() {
 			}
 		}
 		// level passed to walkFn
-		if msg == "" && call.Common().Args[0] != ssa.Value(levelPhi) {
+		if msg == "" && stripConv(call.Common().Args[0]) != ssa.Value(levelPhi) {
 			msg = "walkFn does not receive the current level"
 		}
 	}
